@@ -281,6 +281,24 @@ def check_output(inp, opts, out):
                   if any(not (s.endswith("-start") or s.endswith("-end")) for s in ids))
         if abs(terms["vehicle_activation_penalty"].get("base", 0) - exp) > 1e-6:
             F["C05"].append("activation base %s, penalties of non-empty vehicles %s" % (terms["vehicle_activation_penalty"].get("base"), exp))
+    nstops_of = {vid: sum(1 for s in ids if not (s.endswith("-start") or s.endswith("-end"))) for vid, (ids, vo) in routes.items()}
+    if "stop_balance" in terms:
+        exp = max(list(nstops_of.values()) + [0])
+        if abs(terms["stop_balance"].get("base", 0) - exp) > 1e-6:
+            F["C05"].append("stop_balance base %s, largest number of stops on a route %s" % (terms["stop_balance"].get("base"), exp))
+    if "min_stops" in terms:
+        dv = ((inp.get("defaults") or {}).get("vehicles") or {})
+        exp = 0.0
+        for vid, n in nstops_of.items():
+            v = veh_in[vid]
+            mn = v.get("min_stops") if v.get("min_stops") is not None else dv.get("min_stops")
+            pen = v.get("min_stops_penalty") if v.get("min_stops_penalty") is not None else dv.get("min_stops_penalty")
+            if not mn or not pen or n == 0:
+                continue
+            if n < int(mn):
+                exp += pen * (int(mn) - n) ** 2
+        if abs(terms["min_stops"].get("base", 0) - exp) > 1e-6 * max(1.0, exp):
+            F["C05"].append("min_stops base %s, penalties of the vehicles below their minimum %s" % (terms["min_stops"].get("base"), exp))
     # ---- C20 custom data pass-through
     for vo in out.get("vehicles", []):
         if veh_in[vo["id"]].get("custom_data") != vo.get("custom_data"):
